@@ -1,5 +1,5 @@
 """C17 - hash sorting groups equal items and its searches agree with a linear scan.
-tie: T-gen (cxx2coq on HashSorter::pvMultShift/pvGetStepCount/pvCompare) + T-cor (hand model SorterSearch.v instantiated
+tie: T-gen (cxx2coq on HashSorter::pvMultShift/pvGetStepCount/pvCompare) + T-cor (hand models SorterSearch.v / SorterSort.v instantiated
 with the generated leaves, extracted, run against the real HashSorter incl. read traces) + verified checker on real Sort output."""
 import os, itertools
 
@@ -447,7 +447,7 @@ def run(ctx):
                     'g++ 12 -std=c++17; harness reaches private members via #define private public; read traces via logging functors / hash iterator']
     ctx.assumptions += ['count < 2^62 (size_t index arithmetic does not wrap)', 'hash codes are 64-bit (x86-64 size_t)',
                         'equalFunc is an equivalence relation; equal items have equal hash codes',
-                        'HashSorter::Sort / RadixSorter are not modelled: their real output is validated every run by the verified checker (partial)']
+                        'the radix path of Sort (> 2^(R/2+1) items) is proved only as far as partial correctness of permutation: totality/sortedness there are validated output (verified checker, oracles) + swap-trace tie']
     ctx.regen(GEN)
     ctx.prove()
     exes = ctx.cxx_many([('harness.cpp', 'harness', []),
@@ -513,6 +513,6 @@ RULE = ('cases = ALL sequences of length 0..6 (7 thorough) over 3 item ids x 5 h
         'identity, spread) x prehashed/plain, each with IsSorted and pvFindHash/Find/GetBounds for every id and an absent one; random valid '
         'arrangements of length 7..6000 (sizes around 64 and 4096 where pvGetStepCount changes) with 8 hash distributions and aimed queries '
         '(first/last/middle item, absent item with present hash, absent hash next to a present one, 0, 2^64-1); arbitrary inconsistent arrays '
-        '(tie only); Sort/SortPrehashed on all short sequences x 6 hash functions and shuffled long arrays (sizes around the 32-item '
+        '(tie only); swap-trace tie of the sort model (HSORT: real Sort/SortPrehashed; RSORT: real RadixSorter<1,2,3,8> with logging swapper and group callback) on all short sequences + random arrays up to 257 items; Sort/SortPrehashed on all short sequences x 6 hash functions and shuffled long arrays (sizes around the 32-item '
         'selection/radix boundary); leaves on boundary grids. distinct = distinct case line; non-trivial = search whose hash run holds >= 2 '
         'different items or array length >= 64 (interpolation steps), IsSorted/Sort with >= 3 items')
